@@ -178,6 +178,71 @@ def big_txn_history(res, rng, nrows):
     return fails
 
 
+def chain_subset_images(res, rng):
+    """committed inserts that make a table grow by several pages while nothing but the log reaches the disk (big pool), then a
+    checkpoint: it writes its dirty pages in map-iteration order, so the log plus ANY subset of that batch is a crash state.  The
+    images "one page of the batch alone" and "all but one" are restarted (a later page of the chain in the file without its
+    predecessor, a predecessor without its successor): every committed row must be there and the table must take new rows"""
+    from dbsession import DB
+    import os
+    fails = []
+    db = DB(mem_kb=4000)
+    try:
+        if not db.open().startswith("ok"):
+            return [("open", "database does not start")]
+        sqlt = rng.random() < 0.5
+        if sqlt:
+            db.sql("CREATE TABLE ta(k int, g int, v varchar(255));"); db.sql("CREATE TABLE tb(k int, g int, v varchar(255));")
+        else:
+            db.cmd("mktable ta k:i:n,g:i:n,v:s:n"); db.cmd("mktable tb k:i:n,g:i:n,v:s:n")
+        db.cmd("checkpoint")
+        db.cmd("mark SETUP-DONE")
+        n = rng.randrange(35, 80)
+        want = []
+        for i in range(n):
+            v = pad(200 + i % 50, i)
+            db.sql("INSERT INTO ta(k,g,v) VALUES (%d, %d, '%s');" % (i, i % 7, v))
+            want.append("i:%d,i:%d,s:%s" % (i, i % 7, v.encode().hex()))
+        db.cmd("mark BATCH")
+        db.cmd("checkpoint")
+        tp = os.path.join(db.dir, "chain.trace")
+        db.cmd("trace " + tp)
+        trace = load_trace(tp)
+        b = next(i for i, e in enumerate(trace) if e[0] == "M" and e[1] == "BATCH")
+        pw = [i for i in range(b, len(trace)) if trace[i][0] == "P"]
+        want_a = "ok:" + ";".join(sorted(want))
+        subsets = [[j] for j in pw] + [[x for x in pw if x != j] for j in pw]
+        if len(subsets) > 24:
+            subsets = rng.sample(subsets, 24)
+
+        def one(sub):
+            img = image_at(trace, b)
+            for j in range(b, len(trace)):          # the log writes of the checkpoint itself are durable in every such image
+                if trace[j][0] == "L" or j in sub:
+                    img.apply(trace[j])
+            return sub, restart_on(img, ["ta", "tb"], mem_kb=400, durability=True)
+        for subset, out in parallel(one, subsets):
+            res.note_case("chain-subset|%s|%d|%s" % ("sql" if sqlt else "api", n, ",".join(str(trace[j][1]) for j in subset)), True)
+            bad = None
+            if out["status"] != "ok":
+                bad = "restart fails: %s" % out.get("detail", out["status"])
+            elif out["rows"]["ta"] != want_a:
+                got = out["rows"]["ta"][3:].split(";") if out["rows"]["ta"] != "ok:" else []
+                bad = "committed rows are lost: ta has %d rows after restart, %d were committed" % (len(got), n)
+            elif out.get("probe", "ok") != "ok":
+                bad = str(out.get("probe"))
+            elif out.get("durability", "ok") != "ok":
+                bad = out["durability"]
+            if bad and len(fails) < 2:
+                fails.append(("# verifharness db session: %s tables ta, tb; checkpoint; %d auto-commit inserts of 200-250 byte rows into ta (no page write), checkpoint\n"
+                              "# the checkpoint wrote pages %s; crash image = log + pages %s of that batch" % ("SQL-created" if sqlt else "catalog-API (no index)", n,
+                              ",".join(str(trace[j][1]) for j in pw), ",".join(str(trace[j][1]) for j in subset)),
+                              "crash in the middle of a checkpoint's page writes (pages %s written, the others not): %s" % (",".join(str(trace[j][1]) for j in subset), bad)))
+    finally:
+        db.destroy()
+    return fails
+
+
 def link_window_history(res, rng):
     """a table page that is full (and clean after a checkpoint) gets a successor inside a transaction that is still open, and is then
     pushed out of a 12-16 frame pool by that transaction's inserts into another table: the page written carries the link to the new
@@ -319,6 +384,10 @@ def run(res, replay=None, mode="c01"):
     nh = (16 if mode == "c01" else 24) if res.tier == "quick" else 120
     if mode == "c01":
         for d, w in big_txn_history(res, rng, 2300 if res.tier == "quick" else 7000):
+            if len(res.oracle_failures) < 5:
+                res.oracle_failures.append((d, w))
+    for _ in range(2 if res.tier == "quick" else 12):
+        for d, w in chain_subset_images(res, rng):
             if len(res.oracle_failures) < 5:
                 res.oracle_failures.append((d, w))
     for _ in range(3 if res.tier == "quick" else 20):
